@@ -445,7 +445,16 @@ def embed2d(poly2d, rng, in_plane=None, scale=None, offset_diam=None):
         offset_diam = rng.choice([0.0, 1.0, 1.0, 10.0])
     if in_plane is None:
         in_plane = rng.chance(0.4)
-    if in_plane:
+    if not in_plane and rng.chance(0.15):
+        # an exactly vertical coordinate plane (xz or yz): the normal has a zero z-component
+        a = rng.uniform(0, 2 * math.pi)
+        ca, sa = math.cos(a), math.sin(a)
+        spin = np.array([[ca, -sa, 0], [sa, ca, 0], [0, 0, 1.0]])
+        tilt = np.array([[1.0, 0, 0], [0, 0, -1.0], [0, 1.0, 0]]) if rng.chance(0.5) else \
+            np.array([[0, 0, 1.0], [0, 1.0, 0], [-1.0, 0, 0]])
+        R = tilt @ spin
+        off_dir = np.array(rng.unit_vector(3))
+    elif in_plane:
         a = rng.uniform(0, 2 * math.pi)
         R = np.array([[math.cos(a), -math.sin(a), 0], [math.sin(a), math.cos(a), 0], [0, 0, 1.0]])
         off_dir = np.array([math.cos(a * 1.7), math.sin(a * 1.7), 0.0])
@@ -464,13 +473,21 @@ def tolist(a):
     return np.asarray(a, float).tolist()
 
 
-def build(base):
-    """Instantiate the coxeter object described by a resolved base spec."""
+def build(base, keep=None):
+    """Instantiate the coxeter object described by a resolved base spec.
+    ``keep``: a list that receives every ndarray handed to the constructor (the caller's
+    arrays - a hostile caller overwrites them afterwards)."""
     import coxeter.shapes as S
+
+    def arr(x, *a, **k):
+        out = np.array(x, *a, **k)
+        if keep is not None:
+            keep.append(out)
+        return out
 
     cls = base["cls"]
     if cls == "ConvexPolyhedron":
-        return S.ConvexPolyhedron(np.array(base["vertices"], float))
+        return S.ConvexPolyhedron(arr(base["vertices"], float))
     if cls == "Polyhedron":
         dt = base.get("face_dtype", "int")
         if dt == "list":
@@ -479,18 +496,21 @@ def build(base):
             faces = [np.array(f, dtype={"int": int, "int32": np.int32, "uint64": np.uint64,
                                         "uint8": np.uint8}[dt]) for f in base["faces"]]
         return S.Polyhedron(
-            np.array(base["vertices"], float), faces,
+            arr(base["vertices"], float), faces,
             faces_are_convex=base.get("faces_are_convex", True),
         )
     if cls == "ConvexSpheropolyhedron":
-        return S.ConvexSpheropolyhedron(np.array(base["vertices"], float), base["radius"])
+        return S.ConvexSpheropolyhedron(arr(base["vertices"], float), base["radius"])
+    nrm = base.get("normal")
+    if nrm is not None and keep is not None:
+        nrm = arr(nrm, float)  # the caller's normal as an array it keeps
     if cls == "Polygon":
-        return S.Polygon(np.array(base["vertices"], float), normal=base.get("normal"))
+        return S.Polygon(arr(base["vertices"], float), normal=nrm)
     if cls == "ConvexPolygon":
-        return S.ConvexPolygon(np.array(base["vertices"], float), normal=base.get("normal"))
+        return S.ConvexPolygon(arr(base["vertices"], float), normal=nrm)
     if cls == "ConvexSpheropolygon":
-        return S.ConvexSpheropolygon(np.array(base["vertices"], float), base["radius"],
-                                     normal=base.get("normal"))
+        return S.ConvexSpheropolygon(arr(base["vertices"], float), base["radius"],
+                                     normal=nrm)
     if cls == "Circle":
         return S.Circle(base["radius"], center=list(base["center"]))
     if cls == "Sphere":
